@@ -1,4 +1,4 @@
-CONSTANTS Scope = "table" TableLo = 1 NTable = 2 MaxLen = 3 RunCalls = TRUE FreeJitter = TRUE Mutant = "none"
+CONSTANTS Scope = "table" TableLo = 1 NTable = 2 MaxLen = 3 RunCalls = TRUE Transports = {"grpc", "rest"} FreeJitter = TRUE Mutant = "none"
 SPECIFICATION Spec
 INVARIANT Inv_Resolve
 INVARIANT Inv_Loaded
@@ -14,5 +14,6 @@ INVARIANT Inv_Unnamed
 INVARIANT Inv_NoPolicy
 INVARIANT Inv_Override
 INVARIANT Inv_Counts
+INVARIANT Inv_RestDomain
 INVARIANT Inv_Exact
 PROPERTY Live
